@@ -77,6 +77,15 @@ template<class T> static void run(Rng& g, int n) {
 		  auto w2 = CFG_ZO ? glm::projectZO(obj, model, pm, vp) : glm::projectNO(obj, model, pm, vp); if (std::memcmp(&w2, &win, sizeof win)) fail("project" + ty, "dispatch", ps, "variant", "differs");
 		  auto b2 = CFG_ZO ? glm::unProjectZO(win, model, pm, vp) : glm::unProjectNO(win, model, pm, vp); if (std::memcmp(&b2, &back, sizeof back)) fail("unProject" + ty, "dispatch", ps, "variant", "differs");
 		  if (!(win.z >= -1e-3 && win.z <= 1 + 1e-3)) fail("project" + ty, "viewport-range", ps, "depth in [0,1]", str((double)win.z)); }
+		{ // integer viewport (template parameter U): odd extents, window coordinates against the long-double formula, and the round trip
+		  glm::ivec4 ivp((int)g.range(0, 50), (int)g.range(0, 50), 2 * (int)g.range(50, 450) + 1, 2 * (int)g.range(50, 450) + 1);
+		  auto pm = glm::frustum(l, r, b, t, nr, fr); auto win = glm::project(obj, model, pm, ivp); auto back = glm::unProject(win, model, pm, ivp); count("project_ivec4" + ty);
+		  LD c[4]; clipof(pm, (LD)obj.x + model[3].x, (LD)obj.y + model[3].y, (LD)obj.z + model[3].z, c);
+		  LD ex = ivp.x + ivp.z * (c[0] / c[3] + 1) / 2, ey = ivp.y + ivp.w * (c[1] / c[3] + 1) / 2; LD tolw = 4096 * std::numeric_limits<T>::epsilon() * (1 + fr / nr) * 1000;
+		  std::string psi = ps + " ivp=(" + std::to_string(ivp.x) + "," + std::to_string(ivp.y) + "," + std::to_string(ivp.z) + "," + std::to_string(ivp.w) + ")";
+		  if (!(fabsl((LD)win.x - ex) <= tolw && fabsl((LD)win.y - ey) <= tolw)) fail("project_ivec4" + ty, "window", psi, "(" + str((double)ex) + "," + str((double)ey) + ")", "(" + str((double)win.x) + "," + str((double)win.y) + ")");
+		  LD tolr = 4096 * std::numeric_limits<T>::epsilon() * (1 + fr / nr) * (1 + fabsl(dd));
+		  if (!(fabsl((LD)back.x - obj.x) <= tolr && fabsl((LD)back.y - obj.y) <= tolr && fabsl((LD)back.z - obj.z) <= tolr * fr / nr)) fail("unProject_ivec4" + ty, "roundtrip", psi, "obj", "(" + str((double)back.x) + "," + str((double)back.y) + "," + str((double)back.z) + ")"); }
 		if (it < 2) sample("C08 " + ps);
 	}
 }
